@@ -100,7 +100,8 @@ class LoopGen:
             else:
                 nm = self.fresh("s")
                 size = [self.idx_value(out, scope, ivs) if r.random() < 0.6 else None for _ in range(2)]
-                out.append({"k": "subview", "name": nm, "src": "%arg0", "off": [r.choice(ivs + ["%c0"]) for _ in range(2)], "size": size})
+                off = [r.choice(ivs + ["%c0", None, None]) for _ in range(2)]  # None = static offset 0
+                out.append({"k": "subview", "name": nm, "src": "%arg0", "off": off, "size": size})
                 if r.random() < 0.5:
                     self.tag += 1
                     out.append({"k": "op", "tag": self.tag, "args": [nm], "bufarg": "view"})
@@ -150,7 +151,8 @@ def emit(ast) -> str:
                 e(ind, f'{s["name"]} = affine.min affine_map<(d0) -> ({s["c"]}, -d0 + {s["t"]})>({s["iv"]})')
             elif k == "subview":
                 sz = [x if x is not None else "4" for x in s["size"]]
-                e(ind, f'{s["name"]} = memref.subview {s["src"]}[{s["off"][0]}, {s["off"][1]}] [{sz[0]}, {sz[1]}] [1, 1] : {TA} to {TS}')
+                of = [x if x is not None else "0" for x in s["off"]]
+                e(ind, f'{s["name"]} = memref.subview {s["src"]}[{of[0]}, {of[1]}] [{sz[0]}, {sz[1]}] [1, 1] : {TA} to {TS}')
             elif k == "for":
                 e(ind, f'scf.for {s["iv"]} = {s["lb"]} to {s["ub"]} step {s["step"]} {{')
                 stmts(ind + 1, s["body"])
